@@ -146,8 +146,9 @@ def run_property(mod, tier, seed, only=None):
                       'inconclusive_examples': st.inconclusive[:3],
                       'twin_reachable_paths': st.reached, 'violating_paths': len(st.violations),
                       'wall_s': round(wall, 1), 'counters': st.counters})
+        st.classes = {(sp['name'], c) for c in st.classes}  # fork classes are per harness
+        st.states = {(sp['name'], c) for c in st.states}
         total.merge(st)
-        total.classes |= {(sp['name'], c) for c in st.classes}
     # output
     os.makedirs(os.path.join(ROOT, 'replays'), exist_ok=True)
     lines = []
@@ -197,8 +198,9 @@ def run_property(mod, tier, seed, only=None):
         'engine_errors': engine_errors[:10],
     }
     if level == 'model_checking':
-        cov['states'] = max(1, total.counters.get('states', 0) or len({c for c in total.classes}))
-        cov['transitions'] = max(1, total.reached)
+        # states = distinct canonical pre-states whose paths reached the assertion; transitions = distinct (pre-state, call) pairs
+        cov['states'] = max(1, len(total.states) or len(total.classes))
+        cov['transitions'] = max(1, len(total.classes))
     ev = {'property_id': prop, 'tier': tier, 'seed': seed, 'level': level, 'coverage': cov,
           'assumptions': getattr(mod, 'ASSUMPTIONS', []), 'wall_s': round(wall, 2),
           'violations': len(confirmed)}
